@@ -1822,7 +1822,7 @@ def evaluate__round(self: XPathFunction, context: ta.ContextType = None) \
 
         if precision < 0:
             number = number.quantize(decimal.Decimal(1))
-        return type(arg)(number)  # type: ignore[call-overload, arg-type]
+        return type(arg)(number)
     except TypeError as err:
         if isinstance(context, XPathSchemaContext):
             return []
